@@ -30,13 +30,15 @@ def gen_program(ch: Choices, root: str):
         # some outputs are zero-byte marker files ("done" flags): an empty file and a missing
         # file must still be told apart
         empty = ch.choice(4, "empty-output") == 3
+        # some outputs are several KiB long (content hashes must cover all of it)
+        pad = "" if empty or ch.choice(3, "big-output") else " + '.' * 3000"
         path = os.path.join(root, f"out{i}")
         specs.append({"i": i, "klass": klass, "nest": nest, "path": path, "shallow": shallow,
                       "empty": empty})
         opt = "check_valid='shallow'" if shallow else ""
         if klass in ("File", "ContentFile", "IFile"):
             body = (f"    f = {klass}({path + '.txt'!r})\n"
-                    + (f"    f.write('')\n" if empty else f"    f.write('content-{i}-%s' % x)\n") +
+                    + (f"    f.write('')\n" if empty else f"    f.write('content-{i}-%s' % x{pad})\n") +
                     f"    stamp(f)\n")
             val = "f"
         elif klass in ("Dir", "ContentDir", "IDir"):
@@ -45,7 +47,7 @@ def gen_program(ch: Choices, root: str):
                     f"    for k in range(2):\n"
                     f"        m = File(os.path.join(d.path, 'm%d.txt' % k))\n"
                     + (f"        m.write('')\n" if empty else
-                       f"        m.write('content-{i}-%s-%d' % (x, k))\n") +
+                       f"        m.write('content-{i}-%s-%d' % (x, k){pad})\n") +
                     f"        stamp(m)\n"
                     f"    d.update_hash()\n")
             val = "d"
@@ -54,7 +56,7 @@ def gen_program(ch: Choices, root: str):
                     f"    for k in range(2):\n"
                     f"        m = File(os.path.join({path + '_set'!r}, 'm%d.txt' % k))\n"
                     + (f"        m.write('')\n" if empty else
-                       f"        m.write('content-{i}-%s-%d' % (x, k))\n") +
+                       f"        m.write('content-{i}-%s-%d' % (x, k){pad})\n") +
                     f"        stamp(m)\n"
                     f"    d = FileSet(os.path.join({path + '_set'!r}, '*.txt'))\n"
                     f"    d.update_hash()\n")
@@ -257,7 +259,7 @@ class C04(EngineACheck):
         if not paths:
             return ""
         p = paths[ch.choice(len(paths), "op-path")]
-        k = ch.choice(7, "env-op")
+        k = ch.choice(8, "env-op")
         t = proglib.tick([1, 2, 3, 0.0004][ch.choice(4, "dt")])  # (sub-millisecond steps too)
         name = os.path.basename(p)
         try:
@@ -289,6 +291,15 @@ class C04(EngineACheck):
                     f.write(b)
                 os.utime(p, (t, t))
                 return f"recreate-identical-later {s['klass']}:{name}"
+            if k == 7:
+                with open(p, "rb") as f:
+                    b = f.read()
+                if len(b) < 2:
+                    return ""
+                with open(p, "wb") as f:
+                    f.write(b[:-1] + bytes([(b[-1] + 1) % 256]))  # only the last byte differs
+                os.utime(p, (t, t))
+                return f"rewrite-last-byte-later-mtime {s['klass']}:{name}"
             if k == 5 and s["klass"] in ("Dir", "FileSet", "ContentDir", "IDir"):
                 q = os.path.join(os.path.dirname(p), "extra.txt")
                 with open(q, "w") as f:
